@@ -1,8 +1,8 @@
 SPECIFICATION Spec
 CONSTANTS
   InvDom <- C03_InvH
-  LinkDom <- C03_Link1
-  MaxLen = 3
+  LinkDom <- C03_Link2
+  MaxLen = 2
   NowDom = {1}
   ArgPoints = {0, 1, 2}
   Conforming = FALSE
